@@ -230,17 +230,24 @@ class RandomFair:
 
 
 class RoundRobin:
+    """Fair: after `quantum` consecutive steps of one actor the eligible actor that has waited longest runs next."""
+
     def __init__(self, quantum=1):
-        self.q = quantum
+        self.q = max(1, quantum)
+        self.run_len = 0
+        self.last_run = {}
         self.n = 0
 
     def choose(self, sc, elig, cur):
         self.n += 1
-        if cur in elig and self.n % self.q:
-            return elig.index(cur)
-        if cur in elig:
-            return (elig.index(cur) + 1) % len(elig)
-        return self.n % len(elig)
+        if cur in elig and self.run_len < self.q:
+            self.run_len += 1
+            pick = cur
+        else:
+            pick = min(elig, key=lambda a: (self.last_run.get(a, -1), 0 if sc.actors[a].state == "runnable" else 1))
+            self.run_len = 1
+        self.last_run[pick] = self.n
+        return elig.index(pick)
 
 
 class PCT:
